@@ -625,7 +625,9 @@ class FieldValueComponentUrl(FieldValueComponentKeyValueBase):
         self.value = convert_url()(value)
 
         if isinstance(self.value, urllib3.util.Url) and self.value.scheme is not None:
-            return
+            # only URLs that read back from their own text form (an empty host, for one, does not)
+            if convert_url()(self._get_value_as_simple_type()) == self.value:
+                return
 
         raise InvalidValue(self.value, type(self), 'value')
 
